@@ -58,6 +58,10 @@ def check(run):
     # ---- observable table
     g = ml.methods['obs_gs_ps']
     kinds.check_function(run, repo, g)
+    masks = [c for c in ast.walk(g.node) if isinstance(c, ast.Call) and norm(c.func) == 'mask']
+    if masks:
+        run.violation('R12.zobs', g, masks[0], 'the observables are selected with a boolean mask, which returns them in ascending qubit order: the recorded '
+                      'outcomes are attributed to self.qubits in the caller\'s order, so measure(2, 0) would swap them')
     stores = [st for st, ctx in walk(g.node) if isinstance(st, ast.Assign) and isinstance(st.targets[0], ast.Subscript)
               and isinstance(st.targets[0].slice, ast.Tuple) and ctx.loops]
     if len(stores) != 1:
